@@ -39,8 +39,26 @@ class SamplerTracker(Tracker):
         return out
 
 
+def _likelihood_result_names(f):
+    """Locals bound to the two results of self.evaluate_likelihood(...) in f."""
+    out = []
+    for n in walk_no_nested(f.node):
+        if isinstance(n, ast.Assign) and isinstance(n.value, ast.Call) and \
+                dotted(n.value.func) == '%s.evaluate_likelihood' % f.self_name and \
+                isinstance(n.targets[0], ast.Tuple):
+            out = [t.id for t in n.targets[0].elts if isinstance(t, ast.Name)]
+    return out
+
+
 def run_lockstep(ctx, rid, qualname, group, levels, max_loop=None, floor_paths=1):
     f = ctx.program.func(qualname)
+    res_names = _likelihood_result_names(f)
+    if res_names and 'blobs' in group.optional:
+        # the presence of the optional member may be tested on the local that holds the
+        # blobs returned by the likelihood, whatever it is called
+        group = Group(group.name, group.mandatory,
+                      {k: set(v) | ({res_names[-1]} if k == 'blobs' else set())
+                       for k, v in group.optional.items()}, group.ignore_ops)
     tr = SamplerTracker(f, group.members)
     ml = max_loop if max_loop is not None else (1 if ctx.tier == 'quick' else 2)
     n, touched = check_group_paths(ctx, rid, f, group, tracker=tr, max_loop=ml, levels=levels,
@@ -335,7 +353,11 @@ def rule_L5(ctx, rid='L5'):
            'no aligned view of self.blobs is built')
     # track the view locals
     names = [by_src[s][0] for s in by_src]
+    tnames = {st.targets[0].id for st in walk_no_nested(f.node)
+              if isinstance(st, ast.Assign) and isinstance(st.targets[0], ast.Name) and
+              any(isinstance(x, ast.Attribute) and x.attr == 'prior' for x in ast.walk(st.value))}
     tr = Tracker(f, [], locals_=names)
+    tr.map_calls = set(tnames)        # the prior transform maps rows to rows
     g = Group('G_post', [by_src['points'][0], by_src['log_l'][0]],
               {by_src['blobs'][0]: {'return_blobs'}} if blobs_ok else {},
               ignore_ops=('MARK', 'MAP', 'SET'))
@@ -352,10 +374,15 @@ def rule_L5(ctx, rid='L5'):
     # the weights are rebuilt with the resampled length
     rep_keys = {e.sel for es in tr.all_events().values() for e in es if e.op == 'REPEAT'}
     ok = False
+    wname = None
+    for r_ in walk_no_nested(f.node):
+        if isinstance(r_, ast.Return) and isinstance(r_.value, ast.Tuple) and \
+                len(r_.value.elts) >= 2 and isinstance(r_.value.elts[1], ast.Name):
+            wname = r_.value.elts[1].id
     for nnode in cfg.nodes:
         if nnode.kind == 'stmt' and isinstance(nnode.ast, ast.Assign) and \
                 isinstance(nnode.ast.targets[0], ast.Name) and \
-                nnode.ast.targets[0].id == 'log_w':
+                nnode.ast.targets[0].id == wname:
             v = nnode.ast.value
             if isinstance(v, ast.Call) and dotted(v.func) in ('np.zeros', 'np.ones', 'np.full') \
                     and v.args and isinstance(v.args[0], ast.Call) and \
